@@ -92,6 +92,77 @@ CLAIMED['C18'] = dict(
          'not yet by a theorem over MongoModel.step (the provenance lemmas are its ingredients). '
          'PEP 495 fold, non-fixed-offset tzinfo and bson.Timestamp are out of scope.')
 
+CLAIMED['C11'] = dict(
+    technique='Lean 4 theorems: stable-sort theory (sorted, permutation, stable, unique), key order '
+              'is a strict weak order, cursor slice arithmetic; tied to the code by correspondence '
+              'on find/sort/skip/limit/slices/count/aggregate and an independent python oracle',
+    text='Lean 4 theorems about the model of resolve_sort_key / _get_dataset / Cursor / '
+         'count_documents / $sort-$skip-$limit: on the domain D (sort keys reaching null, bool, '
+         'numbers, strings, naive dates or nothing) the sort never raises and returns a permutation '
+         'of its input that is sorted by the key-by-key BSON order with ties in natural order; the '
+         'key order is a strict weak order on ALL documents; any stable sorted permutation equals '
+         'the model\'s (so modelling timsort by insertion sort loses nothing); successive stable '
+         'sorts from the last key to the first equal one sort by the lexicographic order; '
+         'descending = stable sort by the flipped order; a missing key ties with null; for ANY '
+         'constructor arguments and any sequence of cursor calls the results are '
+         '(sorted.drop skip).take limit (the empty slice [k:k] is a known finding, refuted on a '
+         'witness); count_documents equals the window length; update/replace never move a '
+         'document and ids always come in insertion order of the survivors; $sort/$skip/$limit '
+         'pipelines equal the find path. Tie: scenarios over 0-8 documents with mixed BSON types, '
+         'ties and missing values, random cursor-method sequences, slices, negative limits, '
+         'count_documents, aggregate and write histories are run on /repo and on the compiled '
+         'model and compared with an independent python oracle.',
+    note='Known findings: empty cursor slice, array sort keys use the first element, ObjectId '
+         'sort keys raise (no bson). Sort keys that are embedded documents / nested arrays and '
+         'cursor reconfiguration after iteration started are outside D.')
+
+CLAIMED['C17'] = dict(
+    technique='Lean 4 refinement of the catalog state machine (lazy stores, derived existence, '
+              'handle caches, shared stores) to an explicit-existence specification, with '
+              'corollaries over all histories; tied to the code by multi-client history '
+              'correspondence',
+    text='Lean 4 theorems about the model of ServerStore/DatabaseStore/CollectionStore, Database '
+         'and MongoClient: every reachable state is well formed; on the decidable domain D each '
+         'step refines the explicit-existence specification (same maps, equivalent outputs), '
+         'hence over whole histories; reads never create anything (no domain hypothesis); a '
+         'collection exists and stays listed (and makes its database listed) from its first '
+         'insert / create_index / create_collection until dropped or renamed; create_collection '
+         'on an existing name fails without effect; rename moves exactly documents and indexes '
+         'and its error cases change nothing; after drop_collection / drop / drop_database every '
+         'old handle finds nothing and stays usable; handles and clients sharing a store agree, '
+         'independent clients are isolated; index_information lists _id_ plus exactly the indexes '
+         'created and not dropped. The full-strength refinement is refuted on a witness history '
+         '(a collection vanishes from the listings when its last document is deleted), and each of '
+         'the seven exclusion classes is shown necessary by a witness. Tie: histories of 1-30 '
+         'catalog and data operations over 3 clients (one sharing a store), 2 databases, several '
+         'names and old/fresh handles; after every call the full observable state of every client '
+         'is compared with the model and with the specification run along the history.',
+    note='Known findings (7 classes, replayed each run): vanish_last_doc, vanish_last_index, '
+         'rename_self_droptarget, filter_lists_uncreated, drop_database_foreign_handle, '
+         'drop_collection_foreign_handle, system_create_existing. TTL/unique semantics of '
+         'indexes belong to C06/C09.')
+
+CLAIMED['C20'] = dict(
+    technique='model REGENERATED from the source on every run (dispatch tables by introspection '
+              'and AST, dispositions by probing) + Lean 4 theorems: table-wide decide +kernel, '
+              'and unbounded "unknown $-name takes the raising default branch" per position',
+    text='On every run the translators rebuild Generated/Tables.lean, Vocab.lean and Options.lean '
+         'from /repo: the code\'s operator/stage/accumulator tables, the observed disposition of '
+         'every name of the MongoDB 5.0 vocabulary (plus random unknown names) at 16 syntactic '
+         'positions, and of every public method x option x ignore_feature setting. Lean 4 '
+         'theorems are then re-checked against these tables: every observed "ignored" entry is a '
+         'listed known finding (decide +kernel over the whole table); the hand-written dispatch '
+         'structure reproduces every observation (dispatch_agrees); for EVERY name, an '
+         'unrecognised $-name takes the default branch and raises at every non-lazy position '
+         '(unbounded); stages without handler and $type aliases mapped to None raise; relevant '
+         'options are rejected unless opted out, modulo the listed silent options; '
+         'not_implemented.py obeys ignore/warn/guard laws for every state and feature. A new '
+         'ignored name or silently accepted option breaks a proof obligation and is reported with '
+         'the probing call as replay.',
+    note='Known findings (42 entries): top-level / $elemMatch-level $not ignored, three lazy '
+         'positions that validate nothing, 29 silently dropped options, 8 ineffective opt-outs. '
+         'Projection operators and $bucket/$facet sub-positions are not probed.')
+
 PENDING = {
     'C02': 'model (MongoModel/Update.lean) and correspondence exist; theorems not yet proved',
     'C03': 'in progress: pipeline model depends on the expression model (C04)',
